@@ -6,6 +6,12 @@ package main
 //   kind L  element lists     nil | [] | [0.1.2]          (fp.go slice functions and Stream methods)
 //   kind M  key→value maps    nil | nilmap | {} | {0:10,1:11}   (MapSet / SetForInterface, map functions)
 //   kind S  key→stream maps   nil | {} | {0:[0.1],1:[]}    (StreamSet / StreamSetForInterface)
+//   kind Q  like S, but the operands are built ONCE and the ops (`union:r:a`, `inter:r:a`, `minusstreams:r:a`,
+//           `minus:r:a`, `clone:r`; a = `n` is a nil argument) form a history on the same objects: every result is
+//           appended as a new object and after every op ALL objects are printed `<o0>|<o1>|…|<result>`.  A stream
+//           written `[0.1+2]` is built with two spare slots of capacity behind its two items.
+// Function arguments (`s.map:k`, `s.filter:k`, `s.sort:k`, `m.mapkey:k`, …) index the family shared with C04
+// (c04MapFn, c04PredFn, c04LessFn, c04KeyFn, c04ValFn).
 // `nil` = nil slice for function operands, nil pointer / nil interface for method arguments; a
 // receiver written `nil` is a non-nil pointer to a nil slice / nil map.
 // Observation: per op `g=<generic result> i=<interface{} twin result>` (or `g=<…>` when the function
@@ -31,10 +37,29 @@ type c05List struct {
 }
 
 func c05ParseInts(s string) ([]int, bool) {
+	v, _, ok := c05ParseIntsSpare(s)
+	return v, ok
+}
+
+// `[0.1+2]`: items 0,1 and 2 spare slots of capacity
+func c05ParseIntsSpare(s string) ([]int, int, bool) {
 	if !strings.HasPrefix(s, "[") || !strings.HasSuffix(s, "]") {
-		return nil, false
+		return nil, 0, false
 	}
 	body := s[1 : len(s)-1]
+	spare := 0
+	if k := strings.Index(body, "+"); k >= 0 {
+		n, err := strconv.Atoi(body[k+1:])
+		if err != nil || n < 0 {
+			return nil, 0, false
+		}
+		spare, body = n, body[:k]
+	}
+	v, ok := c05ParseIntsBody(body)
+	return v, spare, ok
+}
+
+func c05ParseIntsBody(body string) ([]int, bool) {
 	res := []int{}
 	if body == "" {
 		return res, true
@@ -164,8 +189,23 @@ func (m c05Map) iArg() *fpgo.SetForInterfaceDef {
 }
 
 type c05KS struct {
-	k int
-	s []int
+	k     int
+	s     []int
+	spare int
+}
+
+func (e c05KS) gStream() *fpgo.StreamDef[int] {
+	buf := make([]int, len(e.s), len(e.s)+e.spare)
+	copy(buf, e.s)
+	return fpgo.StreamFromArray(buf)
+}
+
+func (e c05KS) iStream() *fpgo.StreamForInterfaceDef {
+	buf := make([]interface{}, len(e.s), len(e.s)+e.spare)
+	for k, x := range e.s {
+		buf[k] = x
+	}
+	return fpgo.StreamForInterface.FromArray(buf)
 }
 type c05SS struct {
 	isNil bool
@@ -190,11 +230,11 @@ func c05ParseSS(s string) (c05SS, bool) {
 			return m, false
 		}
 		k, e1 := strconv.Atoi(p[0])
-		v, ok := c05ParseInts(p[1])
+		v, spare, ok := c05ParseIntsSpare(p[1])
 		if e1 != nil || !ok {
 			return m, false
 		}
-		m.ks = append(m.ks, c05KS{k, v})
+		m.ks = append(m.ks, c05KS{k, v, spare})
 	}
 	return m, true
 }
@@ -204,7 +244,7 @@ func (m c05SS) gRecv() *fpgo.StreamSetDef[int, int] {
 	if !m.isNil {
 		src = map[int]*fpgo.StreamDef[int]{}
 		for _, e := range m.ks {
-			src[e.k] = fpgo.StreamFromArray(append([]int{}, e.s...))
+			src[e.k] = e.gStream()
 		}
 	}
 	return fpgo.StreamSetFromMap(src)
@@ -215,7 +255,7 @@ func (m c05SS) iRecv() *fpgo.StreamSetForInterfaceDef {
 	if !m.isNil {
 		src = map[interface{}]*fpgo.StreamForInterfaceDef{}
 		for _, e := range m.ks {
-			src[e.k] = fpgo.StreamForInterface.FromArray(c05List{v: e.s}.i())
+			src[e.k] = e.iStream()
 		}
 	}
 	return fpgo.StreamSetForInterfaceFromMap(src)
@@ -361,6 +401,10 @@ func c05ShowSSI(m map[interface{}]interface{}) string {
 		if !ok {
 			return fmt.Sprintf("?%v", m)
 		}
+		if v == nil {
+			es = append(es, c05Entry{n, "nil"})
+			continue
+		}
 		s, ok := v.(*fpgo.StreamForInterfaceDef)
 		if !ok {
 			return fmt.Sprintf("?%v", m)
@@ -461,6 +505,59 @@ func c05RunL(o []c05List, op string) string {
 		}
 		return c05Both(func() string { return c05ShowBool(a.gRecv().Contains(x)) },
 			func() string { return c05ShowBool(a.iRecv().Contains(x)) })
+	case "s.map", "s.filter", "s.reject", "s.sort", "s.sortidx", "s.get":
+		k, err := strconv.Atoi(arg)
+		if err != nil || (k < 0 && name != "s.get") {
+			return "bad-op"
+		}
+		switch name {
+		case "s.map":
+			return c05Both(func() string {
+				return c05ShowInts(*a.gRecv().Map(func(x int, i int) int { return c04MapFn(k, x, i) }))
+			}, func() string {
+				return c05ShowIfaces(*a.iRecv().Map(func(x interface{}, i int) interface{} { return c04MapFn(k, x.(int), i) }))
+			})
+		case "s.filter":
+			return c05Both(func() string {
+				return c05ShowInts(*a.gRecv().Filter(func(x int, i int) bool { return c04PredFn(k, x, i) }))
+			}, func() string {
+				return c05ShowIfaces(*a.iRecv().Filter(func(x interface{}, i int) bool { return c04PredFn(k, x.(int), i) }))
+			})
+		case "s.reject":
+			return c05Both(func() string {
+				return c05ShowInts(*a.gRecv().Reject(func(x int, i int) bool { return c04PredFn(k, x, i) }))
+			}, func() string {
+				return c05ShowIfaces(*a.iRecv().Reject(func(x interface{}, i int) bool { return c04PredFn(k, x.(int), i) }))
+			})
+		case "s.sort":
+			return c05Both(func() string {
+				return c05ShowInts(*a.gRecv().Sort(func(x, y int) bool { return c04LessFn(k, x, y) }))
+			}, func() string {
+				return c05ShowIfaces(*a.iRecv().Sort(func(x, y interface{}) bool { return c04LessFn(k, x.(int), y.(int)) }))
+			})
+		case "s.sortidx":
+			return c05Both(func() string {
+				r := a.gRecv()
+				return c05ShowInts(*r.SortByIndex(func(i, j int) bool { return c04LessFn(k, (*r)[i], (*r)[j]) }))
+			}, func() string {
+				r := a.iRecv()
+				return c05ShowIfaces(*r.SortByIndex(func(i, j int) bool { return c04LessFn(k, (*r)[i].(int), (*r)[j].(int)) }))
+			})
+		}
+		return c05Both(func() string { return strconv.Itoa(a.gRecv().Get(k)) },
+			func() string { return c05Elem(a.iRecv().Get(k)) })
+	case "s.filternotnil":
+		return c05Both(func() string { return c05ShowInts(*a.gRecv().FilterNotNil()) },
+			func() string { return c05ShowIfaces(*a.iRecv().FilterNotNil()) })
+	case "s.from":
+		return c05Both(func() string { return c05ShowInts(*fpgo.StreamFrom(a.g()...)) },
+			func() string { return c05ShowIfaces(*fpgo.StreamForInterface.From(a.i()...)) })
+	case "s.len":
+		return c05Both(func() string { return strconv.Itoa(a.gRecv().Len()) },
+			func() string { return strconv.Itoa(a.iRecv().Len()) })
+	case "s.toarray":
+		return c05Both(func() string { return c05ShowInts(a.gRecv().ToArray()) },
+			func() string { return c05ShowIfaces(a.iRecv().ToArray()) })
 	case "s.remove":
 		x, err := strconv.Atoi(arg)
 		if err != nil {
@@ -552,6 +649,13 @@ func c05RunM(o []c05Map, op string) string {
 			}
 			return c05ShowMapI(fpgo.IntersectionMapByKeyForInterface(ms...))
 		})
+	case "m.from":
+		l, ok := c05ParseInts(arg)
+		if !ok {
+			return "bad-op"
+		}
+		return c05Both(func() string { return c05ShowMapG(*fpgo.SetFrom[int, int](l...)) },
+			func() string { return c05ShowMapI(*fpgo.SetForInterfaceFrom(c05List{v: l}.i()...)) })
 	case "m.fromarray":
 		l, ok := c05ParseInts(arg)
 		if !ok {
@@ -576,6 +680,62 @@ func c05RunM(o []c05Map, op string) string {
 		}
 		return c05Both(func() string { return c05ShowMapG(a.gRecv().RemoveKeys(l...).AsMap()) },
 			func() string { return c05ShowMapI(*a.iRecv().RemoveKeys(c05List{v: l}.i()...)) })
+	case "m.values":
+		return c05Both(func() string { return c05ShowSorted(a.gRecv().Values()) },
+			func() string {
+				var vs []int
+				for _, v := range a.iRecv().Values() {
+					n, err := strconv.Atoi(c05Val(v))
+					if err != nil {
+						return "?" + c05Val(v)
+					}
+					vs = append(vs, n)
+				}
+				return c05ShowSorted(vs)
+			})
+	case "m.get", "m.hasval", "m.mapkey", "m.mapval":
+		x, err := strconv.Atoi(arg)
+		if err != nil || x < 0 {
+			return "bad-op"
+		}
+		switch name {
+		case "m.get":
+			return c05Both(func() string { return strconv.Itoa(a.gRecv().Get(x)) },
+				func() string { return c05Val(a.iRecv().Get(x)) })
+		case "m.hasval":
+			return c05Both(func() string { return c05ShowBool(a.gRecv().ContainsValue(x)) },
+				func() string { return c05ShowBool(a.iRecv().ContainsValue(x)) })
+		case "m.mapkey":
+			return c05Both(func() string {
+				return c05ShowMapG(a.gRecv().MapKey(func(k int) int { return c04KeyFn(x, k) }).AsMap())
+			}, func() string {
+				return c05ShowMapI(*a.iRecv().MapKey(func(k interface{}) interface{} { return c04KeyFn(x, k.(int)) }))
+			})
+		}
+		return c05Both(func() string {
+			return c05ShowMapG(a.gRecv().MapValue(func(v int) int { return c04ValFn(x, v) }).AsMap())
+		}, func() string {
+			return c05ShowMapI(*a.iRecv().MapValue(func(v interface{}) interface{} { return c04ValFn(x, v.(int)) }))
+		})
+	case "m.rmvals":
+		l, ok := c05ParseInts(arg)
+		if !ok {
+			return "bad-op"
+		}
+		return c05Both(func() string { return c05ShowMapG(a.gRecv().RemoveValues(l...).AsMap()) },
+			func() string { return c05ShowMapI(*a.iRecv().RemoveValues(c05List{v: l}.i()...)) })
+	case "m.set":
+		kv := strings.Split(arg, ":")
+		if len(kv) != 2 {
+			return "bad-op"
+		}
+		k, e1 := strconv.Atoi(kv[0])
+		v, e2 := strconv.Atoi(kv[1])
+		if e1 != nil || e2 != nil {
+			return "bad-op"
+		}
+		return c05Both(func() string { r := a.gRecv(); r.Set(k, v); return c05ShowMapG(*r) },
+			func() string { r := a.iRecv(); r.Set(k, v); return c05ShowMapI(*r) })
 	case "m.has":
 		x, err := strconv.Atoi(arg)
 		if err != nil {
@@ -630,11 +790,220 @@ func c05RunM(o []c05Map, op string) string {
 
 // ---------------------------------------------------------------------------------- kind S
 
+func c05ShowStrs(l []string) string {
+	sort.Strings(l)
+	return "(" + strings.Join(l, "/") + ")"
+}
+
+// the methods both StreamSet types only have by promotion from the embedded set
+func c05RunSPromoted(a c05SS, name, arg string) string {
+	gStr := func(p *fpgo.StreamDef[int]) string {
+		if p == nil {
+			return "nil"
+		}
+		return c05ShowInts(*p)
+	}
+	iStr := func(v interface{}) string {
+		if v == nil {
+			return "nil"
+		}
+		p, ok := v.(*fpgo.StreamForInterfaceDef)
+		if !ok {
+			return fmt.Sprintf("?%v", v)
+		}
+		if p == nil {
+			return "nil"
+		}
+		return c05ShowIfaces(*p)
+	}
+	switch name {
+	case "ss.size":
+		return c05Both(func() string { return strconv.Itoa(a.gRecv().Size()) },
+			func() string { return strconv.Itoa(a.iRecv().Size()) })
+	case "ss.keys":
+		return c05Both(func() string { return c05ShowSorted(a.gRecv().Keys()) },
+			func() string { return c05ShowIfacesSorted(a.iRecv().Keys()) })
+	case "ss.values":
+		return c05Both(func() string {
+			var l []string
+			for _, v := range a.gRecv().Values() {
+				l = append(l, gStr(v))
+			}
+			return c05ShowStrs(l)
+		}, func() string {
+			var l []string
+			for _, v := range a.iRecv().Values() {
+				l = append(l, iStr(v))
+			}
+			return c05ShowStrs(l)
+		})
+	case "ss.has", "ss.get", "ss.mapkey":
+		x, err := strconv.Atoi(arg)
+		if err != nil || x < 0 {
+			return "bad-op"
+		}
+		switch name {
+		case "ss.has":
+			return c05Both(func() string { return c05ShowBool(a.gRecv().ContainsKey(x)) },
+				func() string { return c05ShowBool(a.iRecv().ContainsKey(x)) })
+		case "ss.get":
+			return c05Both(func() string { return gStr(a.gRecv().Get(x)) },
+				func() string { return iStr(a.iRecv().Get(x)) })
+		}
+		return c05Both(func() string {
+			return c05ShowSSG(a.gRecv().MapKey(func(k int) int { return c04KeyFn(x, k) }).AsMap())
+		}, func() string {
+			return c05ShowSSI(*a.iRecv().MapKey(func(k interface{}) interface{} { return c04KeyFn(x, k.(int)) }))
+		})
+	case "ss.rmkeys", "ss.add":
+		l, ok := c05ParseInts(arg)
+		if !ok {
+			return "bad-op"
+		}
+		if name == "ss.rmkeys" {
+			return c05Both(func() string { return c05ShowSSG(a.gRecv().RemoveKeys(l...).AsMap()) },
+				func() string { return c05ShowSSI(*a.iRecv().RemoveKeys(c05List{v: l}.i()...)) })
+		}
+		return c05Both(func() string { return c05ShowSSG(a.gRecv().Add(l...).AsMap()) },
+			func() string { return c05ShowSSI(*a.iRecv().Add(c05List{v: l}.i()...)) })
+	case "ss.set":
+		kv := strings.SplitN(arg, ":", 2)
+		if len(kv) != 2 {
+			return "bad-op"
+		}
+		k, e1 := strconv.Atoi(kv[0])
+		v, spare, ok := c05ParseIntsSpare(kv[1])
+		if e1 != nil || !ok {
+			return "bad-op"
+		}
+		e := c05KS{k, v, spare}
+		return c05Both(func() string { r := a.gRecv(); r.Set(k, e.gStream()); return c05ShowSSG(r.MapSetDef) },
+			func() string { r := a.iRecv(); r.Set(k, e.iStream()); return c05ShowSSI(r.SetForInterfaceDef) })
+	}
+	return "bad-op"
+}
+
+// ---------------------------------------------------------------------------------- kind Q (histories)
+
+func c05RunQ(o []c05SS, ops []string) []string {
+	gobjs := make([]*fpgo.StreamSetDef[int, int], len(o))
+	iobjs := make([]*fpgo.StreamSetForInterfaceDef, len(o))
+	for k := range o {
+		gobjs[k], iobjs[k] = o[k].gRecv(), o[k].iRecv()
+	}
+	dumpG := func() string {
+		p := make([]string, len(gobjs))
+		for k, x := range gobjs {
+			p[k] = c05ShowSSG(x.MapSetDef)
+		}
+		return strings.Join(p, "|")
+	}
+	dumpI := func() string {
+		p := make([]string, len(iobjs))
+		for k, x := range iobjs {
+			p[k] = c05ShowSSI(x.SetForInterfaceDef)
+		}
+		return strings.Join(p, "|")
+	}
+	outs := make([]string, 0, len(ops))
+	for _, op := range ops {
+		f := strings.Split(op, ":")
+		idx := func(s string) int {
+			n, err := strconv.Atoi(s)
+			if err != nil || n < 0 || n >= len(gobjs) {
+				return -1
+			}
+			return n
+		}
+		okOp := (len(f) == 3 && (f[0] == "union" || f[0] == "inter" || f[0] == "minusstreams" || f[0] == "minus") &&
+			idx(f[1]) >= 0 && (f[2] == "n" || idx(f[2]) >= 0)) || (len(f) == 2 && f[0] == "clone" && idx(f[1]) >= 0)
+		if !okOp {
+			outs = append(outs, "g=bad-op")
+			continue
+		}
+		r := idx(f[1])
+		var gres *fpgo.StreamSetDef[int, int]
+		var ires *fpgo.StreamSetForInterfaceDef
+		g := c05Try(func() string {
+			var ga *fpgo.StreamSetDef[int, int]
+			if len(f) == 3 && f[2] != "n" {
+				ga = gobjs[idx(f[2])]
+			}
+			switch f[0] {
+			case "union":
+				gres = gobjs[r].Union(ga)
+			case "inter":
+				gres = gobjs[r].Intersection(ga)
+			case "minusstreams":
+				gres = gobjs[r].MinusStreams(ga)
+			case "minus":
+				var set fpgo.SetDef[int, *fpgo.StreamDef[int]]
+				if ga != nil {
+					set = ga.AsMapSet()
+				}
+				gres = &fpgo.StreamSetDef[int, int]{MapSetDef: *gobjs[r].Minus(set).AsMapSet()}
+			case "clone":
+				gres = gobjs[r].Clone()
+			}
+			return ""
+		})
+		i := c05Try(func() string {
+			var ia *fpgo.StreamSetForInterfaceDef
+			if len(f) == 3 && f[2] != "n" {
+				ia = iobjs[idx(f[2])]
+			}
+			switch f[0] {
+			case "union":
+				ires = iobjs[r].Union(ia)
+			case "inter":
+				ires = iobjs[r].Intersection(ia)
+			case "minusstreams":
+				ires = iobjs[r].MinusStreams(ia)
+			case "minus":
+				ires = iobjs[r].Minus(ia)
+			case "clone":
+				ires = iobjs[r].Clone()
+			}
+			return ""
+		})
+		if gres == nil {
+			gres = fpgo.NewStreamSet[int, int]()
+		}
+		if ires == nil {
+			ires = fpgo.NewStreamSetForInterface()
+		}
+		gobjs, iobjs = append(gobjs, gres), append(iobjs, ires)
+		if g == "" {
+			g = c05Try(dumpG)
+		}
+		if i == "" {
+			i = c05Try(dumpI)
+		}
+		outs = append(outs, "g="+g+" i="+i)
+	}
+	return outs
+}
+
 func c05RunS(o []c05SS, op string) string {
+	if name, arg := c05OpArg(op); name == "ss.fromarray" || name == "ss.from" {
+		l, ok := c05ParseInts(arg)
+		if !ok {
+			return "bad-op"
+		}
+		if name == "ss.from" {
+			return c05Both(func() string { return c05ShowSSG(fpgo.StreamSetFrom[int, int](l...).MapSetDef) },
+				func() string { return c05ShowSSI(fpgo.StreamSetForInterfaceFrom(c05List{v: l}.i()...).SetForInterfaceDef) })
+		}
+		return c05Both(func() string { return c05ShowSSG(fpgo.StreamSetFromArray[int, int](l).MapSetDef) },
+			func() string { return c05ShowSSI(fpgo.StreamSetForInterfaceFromArray(c05List{v: l}.i()).SetForInterfaceDef) })
+	}
 	if len(o) < 1 {
 		return "bad-op"
 	}
 	a := o[0]
+	if name, arg := c05OpArg(op); name != op || name == "ss.size" || name == "ss.keys" || name == "ss.values" {
+		return c05RunSPromoted(a, name, arg)
+	}
 	switch op {
 	case "ss.clone":
 		return c05Both(func() string { return c05ShowSSG(a.gRecv().Clone().MapSetDef) },
@@ -723,13 +1092,17 @@ func c05Run(line string) string {
 			}
 			outs = append(outs, c05Fix(c05RunM(o, op)))
 		}
-	case "S":
+	case "S", "Q":
 		o := make([]c05SS, len(opds))
 		okAll := true
 		for k, s := range opds {
 			var ok bool
 			o[k], ok = c05ParseSS(s)
 			okAll = okAll && ok
+		}
+		if kind == "Q" && okAll {
+			outs = c05RunQ(o, ops)
+			break
 		}
 		for _, op := range ops {
 			if !okAll {
@@ -789,12 +1162,15 @@ func c05RandList(rng *rand.Rand, alpha, maxLen int) string {
 const (
 	c05Ops0  = "union ; inter ; diff ; inter0 ; diff0"
 	c05Ops1  = "union ; inter ; diff ; distinct ; s.distinct ; s.clone ; s.reverse ; s.concat ; s.extend ; has:0 ; has:3 ; s.has:1 ; s.has:2 ; s.remove:-1 ; s.remove:0 ; s.remove:1 ; s.remove:2 ; s.remove:3"
+	c05Ops1b = "s.map:0 ; s.map:1 ; s.map:2 ; s.map:4 ; s.filter:0 ; s.filter:1 ; s.filter:2 ; s.filter:3 ; s.filter:4 ; s.reject:0 ; s.reject:1 ; s.reject:2 ; s.filternotnil ; s.sort:0 ; s.sort:1 ; s.sort:2 ; s.sort:3 ; s.sortidx:0 ; s.sortidx:1 ; s.sortidx:2 ; s.get:-1 ; s.get:0 ; s.get:2 ; s.get:3 ; s.len ; s.toarray ; s.from"
 	c05Ops2  = "union ; inter ; diff ; minus ; subset ; superset ; s.inter ; s.minus ; s.subset ; s.superset ; s.rmitem ; s.append ; s.concat ; s.extend"
 	c05Ops3  = "union ; inter ; diff ; s.concat ; s.extend"
 	c05OpsM1 = "m.keys ; m.size ; m.clone ; m.has:0 ; m.has:2 ; m.add:[] ; m.add:[0] ; m.add:[3.1.3] ; m.rmkeys:[] ; m.rmkeys:[1] ; m.rmkeys:[0.2.0] ; intermap"
+	c05OpsM1b = "m.values ; m.get:0 ; m.get:5 ; m.hasval:10 ; m.hasval:12 ; m.hasval:0 ; m.rmvals:[] ; m.rmvals:[10.12.10] ; m.rmvals:[3] ; m.mapkey:0 ; m.mapkey:2 ; m.mapval:0 ; m.mapval:1 ; m.mapval:2 ; m.set:1:5 ; m.set:7:1"
 	c05OpsM2 = "m.union ; m.inter ; m.minus ; m.subset ; m.superset ; merge ; intermap ; minusmap ; subsetmap ; supersetmap"
 	c05OpsM3 = "intermap"
 	c05OpsS1 = "ss.clone ; ss.frommap"
+	c05OpsS1b = "ss.size ; ss.keys ; ss.values ; ss.has:0 ; ss.has:2 ; ss.get:0 ; ss.get:1 ; ss.rmkeys:[] ; ss.rmkeys:[0.1.0] ; ss.add:[] ; ss.add:[1.3.1] ; ss.set:1:[0.0] ; ss.set:5:[] ; ss.mapkey:0 ; ss.mapkey:2"
 	c05OpsS2 = "ss.union ; ss.inter ; ss.minusstreams ; ss.minus ; ss.subset ; ss.superset"
 )
 
@@ -843,6 +1219,7 @@ func c05Gen(tier string, rng *rand.Rand, emit func(string)) map[string]interface
 	full := c05Lists(4, 3, true) // 86 operands: nil + all lists of length <= 3 over 4 letters
 	for _, a := range full {
 		out("L1", "L "+a+": "+c05Ops1)
+		out("L1", "L "+a+": "+c05Ops1b)
 	}
 	for _, a := range full {
 		for _, b := range full {
@@ -889,12 +1266,17 @@ func c05Gen(tier string, rng *rand.Rand, emit func(string)) map[string]interface
 		}
 		ops += fmt.Sprintf(" ; s.remove:%d ; has:%d", rng.Intn(11)-1, rng.Intn(alpha))
 		out("Lrand", "L "+strings.Join(opds, " ")+": "+ops)
+		if ar == 1 {
+			out("Lrand", "L "+opds[0]+": "+c05Ops1b+fmt.Sprintf(" ; s.get:%d ; s.get:%d", rng.Intn(10)-1, rng.Intn(10)-1))
+		}
 	}
 
 	// ---- kind M
-	out("M0", "M: intermap ; m.fromarray:[] ; m.fromarray:[1] ; m.fromarray:[2.0.2.1]")
+	out("M0", "M: intermap ; m.fromarray:[] ; m.fromarray:[1] ; m.fromarray:[2.0.2.1] ; m.from:[] ; m.from:[1.1.0]")
+	out("S0", "S: ss.fromarray:[] ; ss.fromarray:[2.0.2] ; ss.from:[] ; ss.from:[1.1.0]")
 	for _, a := range c05Maps(3, 10) {
 		out("M1", "M "+a+": "+c05OpsM1)
+		out("M1", "M "+a+": "+c05OpsM1b)
 		for _, b := range c05Maps(3, 20) {
 			out("M2", "M "+a+" "+b+": "+c05OpsM2)
 			for _, c := range c05Maps(3, 30) {
@@ -934,6 +1316,10 @@ func c05Gen(tier string, rng *rand.Rand, emit func(string)) map[string]interface
 			ops = c05OpsM2
 		}
 		ops += " ; m.add:" + c05RandList(rng, 7, 4) + " ; m.rmkeys:" + c05RandList(rng, 7, 4)
+		if ar == 1 {
+			ops += fmt.Sprintf(" ; m.values ; m.get:%d ; m.hasval:%d ; m.hasval:%d ; m.rmvals:%s ; m.mapkey:%d ; m.mapval:%d ; m.set:%d:%d",
+				rng.Intn(7), rng.Intn(4), rng.Intn(4), c05RandList(rng, 4, 3), 2*rng.Intn(2), rng.Intn(3), rng.Intn(7), rng.Intn(4))
+		}
 		ops = strings.ReplaceAll(ops, ":nil", ":[]")
 		out("Mrand", "M "+strings.Join(opds, " ")+": "+ops)
 	}
@@ -942,7 +1328,7 @@ func c05Gen(tier string, rng *rand.Rand, emit func(string)) map[string]interface
 	streams := c05Lists(2, 2, false)
 	ss := c05SSMaps(3, streams)
 	for _, a := range ss {
-		out("S1", "S "+a+": "+c05OpsS1)
+		out("S1", "S "+a+": "+c05OpsS1+" ; "+c05OpsS1b)
 		for _, b := range ss {
 			out("S2", "S "+a+" "+b+": "+c05OpsS2)
 		}
@@ -970,12 +1356,97 @@ func c05Gen(tier string, rng *rand.Rand, emit func(string)) map[string]interface
 	for n := 0; n < nRandS; n++ {
 		out("Srand", "S "+randSS()+" "+randSS()+": "+c05OpsS2+" ; "+c05OpsS1)
 	}
+	// ---- kind Q: histories on the same objects; streams with spare capacity
+	qBinary := []string{"union", "inter", "minusstreams", "minus"}
+	qOps := func(n int) []string { // every op applicable when n objects exist
+		var res []string
+		for _, name := range qBinary {
+			for r := 0; r < n; r++ {
+				for a := 0; a < n; a++ {
+					res = append(res, fmt.Sprintf("%s:%d:%d", name, r, a))
+				}
+			}
+		}
+		for r := 0; r < n; r++ {
+			res = append(res, fmt.Sprintf("clone:%d", r))
+		}
+		return res
+	}
+	qTriples := [][]string{
+		{"{0:[0.1+2]}", "{0:[3]}", "{0:[4]}"},
+		{"{0:[0.1+3],1:[2+1]}", "{0:[1],1:[5]}", "{0:[0.6],2:[7]}"},
+		{"{0:[0.1.2],1:[3.4]}", "{0:[1],1:[3.4]}", "{0:[1.2.5],1:[4.6]}"},
+		{"{0:[0.1+2],1:[2]}", "{1:[2+2]}", "{0:[]}"},
+		{"{0:[+2],1:[1+1]}", "{0:[1],1:[1]}", "{}"},
+		{"{0:[0.0.1+1]}", "{0:[0+4],1:[2]}", "{0:[1+4],1:[3]}"},
+	}
+	for _, t := range qTriples {
+		head := "Q " + strings.Join(t, " ") + ": "
+		for _, o1 := range qOps(3) {
+			for _, o2 := range qOps(4) {
+				out("Q2", head+o1+" ; "+o2)
+			}
+		}
+	}
+	nRandQ := 2500
+	if thorough {
+		nRandQ = 40000
+	}
+	randStream := func() string {
+		n := rng.Intn(4)
+		l := make([]string, n)
+		for k := range l {
+			l[k] = strconv.Itoa(rng.Intn(5))
+		}
+		sp := ""
+		if rng.Intn(2) == 0 {
+			sp = "+" + strconv.Itoa(1+rng.Intn(3))
+		}
+		return "[" + strings.Join(l, ".") + sp + "]"
+	}
+	randQSet := func() string {
+		var p []string
+		for k := 0; k < 3; k++ {
+			if rng.Intn(3) > 0 {
+				p = append(p, fmt.Sprintf("%d:%s", k, randStream()))
+			}
+		}
+		return "{" + strings.Join(p, ",") + "}"
+	}
+	for n := 0; n < nRandQ; n++ {
+		no := 2 + rng.Intn(2)
+		opds := make([]string, no)
+		for k := range opds {
+			opds[k] = randQSet()
+		}
+		nops := 2 + rng.Intn(3)
+		ops := make([]string, nops)
+		for k := range ops {
+			cur := no + k
+			if rng.Intn(8) == 0 {
+				ops[k] = fmt.Sprintf("clone:%d", rng.Intn(cur))
+				continue
+			}
+			// prefer the original operands as receivers, so that the same receiver is used repeatedly
+			r := rng.Intn(cur)
+			if rng.Intn(2) == 0 {
+				r = rng.Intn(no)
+			}
+			a := strconv.Itoa(rng.Intn(cur))
+			if rng.Intn(15) == 0 {
+				a = "n"
+			}
+			ops[k] = fmt.Sprintf("%s:%d:%s", qBinary[rng.Intn(4)], r, a)
+		}
+		out("Qrand", "Q "+strings.Join(opds, " ")+": "+strings.Join(ops, " ; "))
+	}
 	return map[string]interface{}{
 		"exhaustive": false,
 		"scope": "L: arity 0; all 86 operands (nil + lists of length <= 3 over 4 letters) for arity 1 and all 86^2 pairs; " +
 			"triples: quick 22^3 (length <= 2 over 4 letters) + 86x6x6, thorough all 86^3; random arity 1..5, length <= 8, alphabet <= 7. " +
 			"M: all maps over 3 keys + nil + nil map, pairs and triples; random 6-key maps. " +
-			"S: all key->stream maps with <= 2 of 3 keys, streams of length <= 2 over 2 letters (incl. empty) + nil, all pairs; random 4-key maps, streams length <= 5 over 4 letters",
+			"S: all key->stream maps with <= 2 of 3 keys, streams of length <= 2 over 2 letters (incl. empty) + nil, all pairs; random 4-key maps, streams length <= 5 over 4 letters. " +
+			"Q: 6 operand triples (streams with spare capacity) x ALL histories of 2 ops (39 x 68) with every object re-read after every op; random histories of 2..4 ops on 2..3 random operands",
 		"cases_by_kind": counts,
 	}
 }
